@@ -476,7 +476,7 @@ def attempt(f):
         import traceback
 
         tb = traceback.format_exc()
-        if 'File "/repo/' not in tb and "splink" not in tb:
+        if f'File "{core.REPO}/' not in tb and "splink" not in tb:
             raise
         return None, f"{type(e).__name__}: {str(e)[:300]}"
 
